@@ -317,8 +317,8 @@ static const char* TCP_TOKENS[] = {
   "decode", "encode", "scan", "log", "raw", "dump", "reload", "quit", "info", "help",
   // options
   "-h", "-c", "-p", "-m", "-d", "-s", "-i", "-def", "-l", "-n",
-  // names
-  "main", "temp", "setp",
+  // names; a level name that merely starts with the level of a loaded message ("inst")
+  "main", "temp", "setp", "installer",
   // hex strings (even / odd length, with slave part), ids
   "08b509020d01", "08b5090", "1008b509020d01/0107", "b509",
   // empty quotes, over-long number, "-", a definition, a listing keyword
